@@ -16,6 +16,13 @@ CLAIMED = {
     ),
 }
 
+CLAIMED["C13"] = (
+    "DESIGN.md section 5, C13",
+    "Lean 4 theorems over a hand-written functional + event-loop (LTS) model of rate_limit and delay (invariants over every action sequence) + exact-time differential correspondence against the real nodes on a virtual-time loop",
+    "Proof: for every interval I >= 0 and every arrival pattern (bursts, ties, several producers) any two deliveries are >= I apart (rate_limit_spacing, rate_limit_loop_spacing), delivery order = arrival order, nothing lost (rate_limit_plan_in_arrival_order, rate_limit_loop_order, rate_limit_loop_none_lost), no delay after an idle interval (rate_limit_no_delay_after_idle, rate_limit_loop_idle), liveness of draining; delay keeps order and count (delay_loop_prefix, delay_loop_none_lost, delay_plan_order_count). Tied to the code by replaying observed arrive/deliver events of the real nodes through the model (each must be an enabled action) and comparing delivery instants exactly.",
+    "Trusted: Lean kernel (+propext, Classical.choice, Quot.sound); the hand-written model of rate_limit.update/delay.cb and tornado Queue/gen.sleep; timers fire at their due time on the virtual loop (real timer lateness is not modelled); CPython 3.12 asyncio private attributes used by the virtual loop.",
+)
+
 NOT_YET = {}
 
 
